@@ -49,6 +49,9 @@ type ProbeImpl struct {
 	OnActivate func(bus.Activation)
 	// SlowMs is the number of simulated milliseconds Slow sleeps.
 	SlowMs int
+	// ActivateErr, when set, is what Activate returns (an object that
+	// cannot start)
+	ActivateErr error
 	// ValidatorYields makes the property validator take its time (that many
 	// forced scheduling decisions) before it answers.
 	ValidatorYields int
@@ -67,6 +70,9 @@ func (p *ProbeImpl) Activate(a bus.Activation, h probe.ProbeSignalHelper) error 
 	p.Act = a
 	if p.OnActivate != nil {
 		p.OnActivate(a)
+	}
+	if p.ActivateErr != nil {
+		return p.ActivateErr
 	}
 	if p.Env != nil && p.Env.C.P("unset_level", 0) == 1 {
 		// a declared property that has no value until somebody writes it
